@@ -11,7 +11,7 @@ Lvl(e) == IF e.level = "authpriv" THEN "authpriv" ELSE "auth"
 SymMsg(e) ==
   LET s == e.sym a == Authentic(Lvl(e), FALSE)
       c == [auth |-> s.auth, priv |-> s.priv, user |-> s.user, len127 |-> FALSE,
-            data |-> [form |-> s.form, key |-> s.ekey, pdu |-> [type |-> s.ptype, reqid |-> s.reqid, vbs |-> s.vbs]]]
+            data |-> [form |-> s.form, key |-> s.ekey, pdu |-> [type |-> s.ptype, reqid |-> s.reqid, vbs |-> s.vbs, es |-> s.es]]]
   IN [c |-> c, mac |-> CASE s.mac = "stale" -> a.mac [] s.mac = "Kx" -> [kind |-> "mac", key |-> "Kx", over |-> c]
                          [] OTHER -> [kind |-> s.mac]]
 On(e) ==
@@ -19,14 +19,15 @@ On(e) ==
   THEN << <<"attack_hangs_client", e.ret.kind # "hang">>,
           <<"forged_result_accepted", e.ret.kind = "exc" \/ e.ret.same>>,
           <<"client_unusable_after_attack", e.usable_after>> >>
-  ELSE LET m == SymMsg(e) p == Process(Lvl(e), m) IN
+  ELSE LET m == SymMsg(e) IN
        << <<"MACHINERY_attack_not_derivable_by_attacker", CanSend(Authentic(Lvl(e), FALSE), m)>>,
           <<"MACHINERY_attack_did_not_reach_client", e.reached>>,
           <<"attack_hangs_client", e.ret.kind # "hang">>,
           <<"forged_result_accepted", e.ret.kind = "exc" \/ e.ret.same>>,
           <<"report_returned_as_data", e.sym.ptype # "Report" \/ e.ret.kind = "exc">>,
           <<"client_unusable_after_attack", e.usable_after>> >>
-Drift(e) == IF Has(e.sym, "bitflip") THEN 0 ELSE IF Process(Lvl(e), SymMsg(e)).kind = e.ret.kind THEN 0 ELSE 1
+Api == IF Traces[tid].scenario.op = "walk" THEN "walk" ELSE "single"
+Drift(e) == IF Has(e.sym, "bitflip") THEN 0 ELSE IF Caller(Api, Process(Lvl(e), SymMsg(e))).kind = e.ret.kind THEN 0 ELSE 1
 
 TInit == tid \in 1..Len(Traces) /\ l = 1 /\ tverdict = <<"ok", 0>>
 TStep == /\ l <= Len(Ev)
